@@ -95,6 +95,9 @@ Lemma ob_static_upstream_validated :
 Proof. vm_compute. repeat split; reflexivity. Qed.
 
 (* net.go and wiring *)
+(* the connect-to redirect is applied once, before the Dialer's retry loop is entered *)
+Lemma ob_redirect_before_retry_loop : redirect_in_retry_loop = false.
+Proof. vm_compute. reflexivity. Qed.
 Lemma ob_redirect_shape :
   redirect_shape_first_match = true /\ dialer_redirects_every_dial = true /\ connect_to_wired = true.
 Proof. vm_compute. repeat split; reflexivity. Qed.
